@@ -121,8 +121,9 @@ class BusyLoop(BaseException):
 class Real:
     """One real Pipeline under manual step control."""
 
-    def __init__(self, n, k, conc, src_fail, url_source=None):
+    def __init__(self, n, k, conc, src_fail, url_source=None, task_kinds=None):
         from wpull.pipeline.pipeline import Pipeline, ItemSource, ItemTask
+        self.task_kinds = list(task_kinds or [])
         self.n, self.k, self.src_fail = n, k, src_fail
         self.log = []            # (task, item, 's'|'e')
         self.all_log = []        # + ('get',), ('stop',) markers for the oracle
@@ -193,6 +194,60 @@ class Real:
                 if self.ix == real.k - 1:
                     del real.holder[asyncio.current_task()]
 
+        def item_ix(item):
+            return int((item if isinstance(item, str) else item.url_record.url)[4:])
+
+        class AsyncTask(Task):
+            """`async def process`"""
+            async def process(self, item):
+                i = item_ix(item)
+                ev = (self.ix, i, 's')
+                real.log.append(ev)
+                real.all_log.append(ev)
+                fut = real.loop.create_future()
+                real.parked[i] = fut
+                real.holder[asyncio.current_task()] = i
+                ok = await fut
+                if not ok:
+                    del real.holder[asyncio.current_task()]
+                    real.task_raised += 1
+                    raise TaskError('task %d item %d' % (self.ix, i))
+                ev = (self.ix, i, 'e')
+                real.log.append(ev)
+                real.all_log.append(ev)
+                if self.ix == real.k - 1:
+                    del real.holder[asyncio.current_task()]
+
+        class FutureTask(Task):
+            """a plain function that returns a Future which completes (or fails) later"""
+            def process(self, item):
+                i = item_ix(item)
+                ev = (self.ix, i, 's')
+                real.log.append(ev)
+                real.all_log.append(ev)
+                fut = real.loop.create_future()
+                out = real.loop.create_future()
+                real.parked[i] = fut
+                worker = asyncio.current_task()
+                real.holder[worker] = i
+                ix = self.ix
+
+                def done(f):
+                    if not f.result():
+                        real.holder.pop(worker, None)
+                        real.task_raised += 1
+                        out.set_exception(TaskError('task %d item %d' % (ix, i)))
+                        return
+                    ev = (ix, i, 'e')
+                    real.log.append(ev)
+                    real.all_log.append(ev)
+                    if ix == real.k - 1:
+                        real.holder.pop(worker, None)
+                    out.set_result(None)
+                fut.add_done_callback(done)
+                return out
+        self._task_classes = {'gen': Task, 'async': AsyncTask, 'future': FutureTask}
+
         self.loop = sched.new_det_loop(0, chooser=self._choose)
         self.tasks = []
 
@@ -202,7 +257,8 @@ class Real:
             return t
         self.loop.set_task_factory(factory)
         self._want = 0
-        self.pipeline = Pipeline(Source(), [Task(i) for i in range(k)])
+        kinds = (self.task_kinds + ['gen'] * k)[:k]
+        self.pipeline = Pipeline(Source(), [self._task_classes[kinds[i]](i) for i in range(k)])
         self.pipeline.concurrency = conc
         ev = self.pipeline._unpaused_event
         orig_wait = ev.wait
@@ -344,8 +400,12 @@ class Real:
             fut = self.parked.pop(i, None)
             if fut is None:
                 return False
+            wtask = next((t for t, j in self.holder.items() if j == i), None)
             fut.set_result(a[0] == 'T')
-            h = self._handles().get('W%d' % i)
+            self._settle()            # a Future-returning task completes its Future from a callback
+            h = next((x for x in self._ready() if wtask is not None and handle_task(x) is wtask), None)
+            if h is None:
+                return False
             self._run_handle(h)
         else:
             raise Infra('bad action %r' % a)
@@ -429,10 +489,10 @@ class Real:
 
 
 def run_real(n, k, conc, src_fail, policy_or_actions, rng=None, inj=None, cont=None, picker=None, cont_inj=None,
-             url_source=None):
+             url_source=None, task_kinds=None):
     """Run the real pipeline.  `policy_or_actions` is either a list of actions (replay) or a policy name;
     returns dict(actions, steps=[(events, digest)], …)."""
-    real = Real(n, k, conc, src_fail, url_source)
+    real = Real(n, k, conc, src_fail, url_source, task_kinds)
     steps = []
     actions = []
     fixed = policy_or_actions if isinstance(policy_or_actions, list) else None
@@ -882,6 +942,27 @@ def gen_second_run(ctx, rng, count):
     return out
 
 
+TASK_KINDS = ['gen', 'async', 'future']
+
+
+def gen_task_kinds(ctx, rng, count):
+    """The pipeline's tasks in every awaitable style: generator coroutine, `async def`, and a plain function returning a
+    Future that completes (or fails) later; random schedules incl. stops, concurrency changes, failures."""
+    out = []
+    for _ in range(count):
+        n = rng.choice([1, 2, 3, 4])
+        k = rng.choice([1, 2, 2, 3])
+        conc = rng.choice([1, 1, 2, 3])
+        kinds = [rng.choice(TASK_KINDS) for _ in range(k)]
+        if 'future' not in kinds and rng.random() < 0.5:
+            kinds[rng.randrange(k)] = 'future'
+        inj = rng.choice([{'max': 0}, {'max': 0, 'X': 0.1}, {'max': 1, 'S': 0.04}, {'max': 1, 'C': 0.06}])
+        case = {'n': n, 'k': k, 'conc': conc, 'src_fail': False, 'task_kinds': kinds}
+        res = run_real(n, k, conc, False, rng.choice(POLICIES), rng, inj, task_kinds=kinds)
+        out.append((case, res))
+    return out
+
+
 STOP_VARIANTS = ['stop', 'stop', 'stop-fail-last', 'source-raises', 'source-raises-fail-last', 'stop-queued']
 
 
@@ -1321,9 +1402,31 @@ def run_series(case):
                 raise TaskError('pipeline %d' % self.ix)
             log.append((self.ix, self.t, item))
 
+    class RecordTask(Record):
+        """a plain function returning an asyncio.Task"""
+        def process(self, item):
+            return asyncio.ensure_future(compat._ensure(Record.process(self, item)))
+
+    class RecordDone(Record):
+        """a plain function that does its work at once and returns an already-done (or already-failed) Future"""
+        def process(self, item):
+            out = holder['loop'].create_future()
+            first = item.endswith('.0') and self.t == 0
+            st = stop_spec()
+            if first and st and st['at'] == 'task' and st['pipe'] == self.ix:
+                do_stop()
+            if first and case['fail_in'] == self.ix:
+                out.set_exception(TaskError('pipeline %d' % self.ix))
+            else:
+                log.append((self.ix, self.t, item))
+                out.set_result(None)
+            return out
+    record_cls = {'gen': Record, 'task': RecordTask, 'done-future': RecordDone}[case.get('task_kind', 'gen')]
+
     pipes = []
     for ix, (n_items, n_tasks, skippable) in enumerate(case['pipes']):
-        p = Pipeline(Source(ix, ['p%d.%d' % (ix, j) for j in range(n_items)]), [Record(ix, t) for t in range(n_tasks)])
+        p = Pipeline(Source(ix, ['p%d.%d' % (ix, j) for j in range(n_items)]),
+                     [(Record if (ix == 0 and t == 0) else record_cls)(ix, t) for t in range(n_tasks)])
         p.skippable = bool(skippable)
         pipes.append(p)
     kind = case['kind']
@@ -1485,6 +1588,7 @@ def series_case(ctx, case):
         if not r['stop_midway']:
             tags.append('series:stop-while-pipeline-not-running')
     tags.append('series:via-' + case.get('via', 'run'))
+    tags.append('series:tasks-' + case.get('task_kind', 'gen'))
     if case['fail_in'] is not None:
         tags.append('series:task-raises')
     ctx.case(('series', json.dumps(case, sort_keys=True)), nontrivial=True, tags=tags)
@@ -1512,6 +1616,7 @@ def series_stream(ctx, rng, count):
             if pipes[case['fail_in']][0] < 2:
                 pipes[case['fail_in']][0] = rng.choice([2, 3])     # work remains when the task raises
         case['via'] = 'run_sync' if ix % 2 else 'run'
+        case['task_kind'] = rng.choice(['gen', 'gen', 'task', 'done-future'])
         res = series_case(ctx, case)
         if ix < 1:
             ctx.sample(dict(case, begins=res['begins'], exit=res['exit']))
@@ -1547,12 +1652,12 @@ def replay(ctx, case, kind=None, where=None):
     if case.get('stream') == 'series':
         series_case(ctx, case)
         return
-    base = {kk: case[kk] for kk in ('n', 'k', 'conc', 'src_fail', 'url_source') if kk in case}
+    base = {kk: case[kk] for kk in ('n', 'k', 'conc', 'src_fail', 'url_source', 'task_kinds') if kk in case}
     import random
     res = run_real(case['n'], case['k'], case['conc'], case['src_fail'], list(case['actions']),
                    rng=random.Random(case.get('then_seed', 0)), cont=case.get('then'),
                    cont_inj={'unpause': False} if case.get('no_resume') else None,
-                   url_source=case.get('url_source'))
+                   url_source=case.get('url_source'), task_kinds=case.get('task_kinds'))
     if case.get('then_restart') is not None and res['main'] == 'r' and not any(a[0] == 'R' for a in res['actions']):
         # run 1 is complete: process() again on the same object, then run on
         res = run_real(case['n'], case['k'], case['conc'], case['src_fail'],
@@ -1589,6 +1694,11 @@ def run(ctx):
     ctx.tag('pause:task-raised-while-paused', len([1 for c, r in pf if failed_while_paused(r['actions'])]))
     ctx.tag('pause:ended-paused-without-resume',
             len([1 for c, r in pf if r['main'] == 'p' and not r['enabled']]))
+    # tasks in every awaitable style (generator coroutine, async def, Future-returning plain function)
+    tk = gen_task_kinds(ctx, ctx.subrng('task-kinds'), ctx.scale(600, 6000))
+    check_cases(ctx, tk, tags=['task-kinds'])
+    for kd in TASK_KINDS:
+        ctx.tag('task-kinds:' + kd, len([1 for c, r in tk if kd in c['task_kinds']]))
     # a second / third process() on the same Pipeline object
     sr = gen_second_run(ctx, ctx.subrng('second-run'), ctx.scale(600, 6000))
     check_cases(ctx, sr, tags=['second-run'])
@@ -1647,6 +1757,7 @@ def search(ctx):
     check_cases(ctx, gen_stop_busy(ctx, rng, ctx.scale(100, 300)), tags=['stop-busy-scenario'])
     check_cases(ctx, gen_url_source(ctx, rng, ctx.scale(100, 300)), tags=['url-source'])
     check_cases(ctx, gen_second_run(ctx, rng, ctx.scale(100, 300)), tags=['second-run'])
+    check_cases(ctx, gen_task_kinds(ctx, rng, ctx.scale(100, 300)), tags=['task-kinds'])
     app_stream(ctx, rng, ctx.scale(2, 5))
     series_stream(ctx, rng, ctx.scale(20, 50))
     free_run(ctx, rng, ctx.scale(100, 300))
